@@ -29,10 +29,12 @@ TEXTS = {
     True: {"v1": HEAD + 'QWidget { QCheckBox { id: c } QLabel { text: c.checked ? "a" : "b" } }\n',
            "v2": HEAD + 'QWidget { windowTitle: "t"; QCheckBox { id: c } QLabel { text: c.checked ? "a" : "bb" } }\n',
            "v3": HEAD + 'QWidget { QCheckBox { id: c } QLabel { text: c.checked ? "x" : "b" } }\n',        # same .ui as v1, other header
+           "v4": HEAD + 'QWidget { windowTitle: "u"; QCheckBox { id: c } QLabel { text: c.checked ? "a" : "bc" } }\n',      # both outputs differ from v2's, in one byte each, same lengths
            "bad": HEAD + 'QWidget { QCheckBox { id: c } QLabel { text: c.nothing } }\n'},
     False: {"v1": HEAD + 'QWidget { QCheckBox { id: c } QLabel { text: "a" } }\n',
             "v2": HEAD + 'QWidget { windowTitle: "t"; QCheckBox { id: c } QLabel { text: "bb" } }\n',
             "v3": HEAD + 'QWidget { QCheckBox { id: c } QLabel { text: "a"; enabled: true } }\n',
+            "v4": HEAD + 'QWidget { windowTitle: "u"; QCheckBox { id: c } QLabel { text: "bc" } }\n',      # differs from v2's .ui in two bytes, same length
             "bad": HEAD + 'QWidget { QCheckBox { id: c } QLabel { text: c.checked ? "a" : "b" } }\n'},        # dynamic: rejected in this mode
 }
 COMMENT = "// a comment that does not change any output\n"
@@ -219,9 +221,9 @@ def reference(chk, qmluic, stem, text, lowercase, dynamic):
 
 
 STEPS1 = [("generate", ["v1"]), ("re-generate", ["v1"]), ("edit, same outputs", ["v1c"]), ("edit, other outputs", ["v2"]), ("edit, only the header changes", ["v3"]),
-          ("re-generate", ["v3"]), ("failing edit", ["bad"]), ("repair", ["v1"])]
+          ("re-generate", ["v3"]), ("failing edit", ["bad"]), ("repair", ["v1"]), ("edit, other outputs", ["v2"]), ("edit, outputs of the same length", ["v4"]), ("back", ["v2"])]
 STEPS2 = [("generate", ["v1", "v1"]), ("re-generate", ["v1", "v1"]), ("edit second", ["v1", "v2"]), ("edit first", ["v3", "v2"]), ("second fails", ["v1", "bad"]),
-          ("first fails", ["bad", "v3"]), ("repair", ["v2", "v3"]), ("re-generate", ["v2", "v3"])]
+          ("first fails", ["bad", "v3"]), ("repair", ["v2", "v3"]), ("re-generate", ["v2", "v3"]), ("edit first, same length", ["v4", "v3"]), ("swap", ["v2", "v4"])]
 
 
 def history(chk, qmluic, srcs, outdir, lowercase, dynamic, traces, back, steps=None):
